@@ -749,6 +749,27 @@ func initLib() {
 		return Val{T: mk("(- (to_real (to_int (- "+a[0].T.S+"))))", sortReal)}
 	}
 
+	libTable[bigPfx+"SetBytes"] = func(vc *VC, fr *Frame, st *State, a []Val, at []types.Type, rt types.Type, pos token.Pos) Val {
+		vc.usedLib("big.Int.SetBytes")
+		vc.nilChecks(fr, st, pos, a[0])
+		s := a[1].T
+		arr := tSelect(vc.heapGet(st.heap, vc.arrComp(types.Typ[types.Uint8])), mk("(sl-ref "+s.S+")", sortRef))
+		bts := vc.bytesOf(arr, mk("(sl-off "+s.S+")", vc.idxSort()), mk("(sl-len "+s.S+")", vc.idxSort()))
+		vc.storePlace(st, a[0].P, mk("(beval "+bts.S+")", sortInt))
+		return a[0]
+	}
+	libTable[bigPfx+"Bytes"] = func(vc *VC, fr *Frame, st *State, a []Val, at []types.Type, rt types.Type, pos token.Pos) Val {
+		vc.usedLib("big.Int.Bytes")
+		vc.nilChecks(fr, st, pos, a[0])
+		x := vc.ld(st, a[0])
+		v := vc.freshVal(st, "bigbytes", rt)
+		// fresh, non-nil, and its content is the encoding of |x|
+		vc.assume(st, tNot(tEq(mk("(sl-ref "+v.T.S+")", sortRef), mk("0", sortRef))))
+		arr := tSelect(vc.heapGet(st.heap, vc.arrComp(types.Typ[types.Uint8])), mk("(sl-ref "+v.T.S+")", sortRef))
+		bts := vc.bytesOf(arr, mk("(sl-off "+v.T.S+")", vc.idxSort()), mk("(sl-len "+v.T.S+")", vc.idxSort()))
+		vc.assume(st, tEq(bts, mk(fmt.Sprintf("(beenc (ite (>= %s 0) %s (- %s)))", x.S, x.S, x.S), &Sort{K: SOpaque, Name: "Bytes"})))
+		return v
+	}
 	libTable[bigPfx+"Sign"] = func(vc *VC, fr *Frame, st *State, a []Val, at []types.Type, rt types.Type, pos token.Pos) Val {
 		vc.usedLib("big.Int.Sign")
 		vc.nilChecks(fr, st, pos, a[0])
@@ -856,6 +877,11 @@ func (vc *VC) preludeText() string {
 		b.WriteString("(declare-sort Bytes 0)\n")
 		b.WriteString("(declare-fun bytes-of ((Array " + is + " " + vc.intSort(8).Name + ") " + is + " " + is + ") Bytes)\n")
 		b.WriteString("(declare-const bytes-nil Bytes)\n")
+		// beval: the unsigned big-endian integer a byte string denotes (big.Int.SetBytes); beenc: the minimal
+		// big-endian encoding of a natural number (big.Int.Bytes)
+		b.WriteString("(declare-fun beval (Bytes) Int)\n(declare-fun beenc (Int) Bytes)\n")
+		b.WriteString("(assert (forall ((x Bytes)) (! (>= (beval x) 0) :pattern ((beval x)))))\n")
+		b.WriteString("(assert (forall ((n Int)) (! (=> (>= n 0) (= (beval (beenc n)) n)) :pattern ((beenc n)))))\n")
 	}
 	if vc.needStr {
 		b.WriteString("(declare-sort Str 0)\n")
